@@ -20,6 +20,20 @@
    Crypto abstraction (DESIGN section 3): a signature verifies under key K for an object iff it was made by K over
    that object's root with that object's domain and fork version.
 
+   The admission rule is PER ELEMENT and HISTORY-FREE: element e of a submission / peer set may enter only if
+   Valid(e) - for every element of a multi-element request independently (whatever the other elements are: a batch
+   whose individual errors cancel in a sum is still a batch of invalid elements), and whatever the node verified
+   before (a signature seen earlier on another object proves nothing about this object).  What the unchanged code does
+   with the REST of a request that has a bad element is transcribed as coded (validator API: the whole call fails,
+   nothing of it is handed on; peer: the whole set is dropped) - the statement itself only demands that the bad
+   element stays out, and that nothing of a peer set with a bad entry enters.
+   Beyond the single-element cases there are therefore (a) BATCH cases: 2..3 elements in one request, every
+   assignment of the elements' valid signatures to the elements (permutations: element k carries the signature
+   that is valid for element j; same signing root for all, so that sums cancel, or different ones), one bad element
+   at each position, duplicates, two elements of one validator; and (b) SEQUENCES of 2..3 calls to the same
+   component that all carry the SAME signature bytes: the valid object, the object with one signed field changed, the
+   object filed under another duty type, a well-formed object of another kind - in every order, incl. exact replays.
+
    Two descriptions are related here: Valid/MayEnter is the property as stated; PeerAdmits/VCEntryOK transcribe the
    checks of the code in the order the code makes them.  The model checker shows that the transcription implies the
    property for every case (and that each control variant - one check dropped - does not); trace validation shows
@@ -36,7 +50,13 @@ CONSTANTS N,                \* shares (= nodes) per validator, indices 1..N
           SignedGater,      \* control: the duty gater computes epochs in int64 (a slot >= 2^63 turns negative)
           UseSenderIdx,     \* control: the eth2 verifier looks the share up by the sender instead of data.ShareIdx
           InnerProofPolicy, \* "reject" as coded | "either": the statement is silent about the embedded selection proof
-          VCBatchPolicy     \* "none" as coded (one bad entry fails the whole VC request) | "either" for the valid siblings
+          VCBatchPolicy,    \* "none" as coded (one bad entry fails the whole VC request) | "either" for the valid siblings
+          AggBatchFor,      \* control: kind whose VC handler checks a request with ONE aggregate verification per signing root
+                            \* (sum of the signatures against the sum of the claimed public shares) ("none" = as coded)
+          MemoVerifier,     \* control: the peer verifier remembers (public share, signature) of verified partials and
+                            \* admits a remembered pair without looking at the object it now comes with
+          ReplayPolicy      \* "admit" as coded (no handler keeps a history: a re-submitted valid partial enters again) |
+                            \* "either": the statement is silent about exact re-submissions
 
 Versions7 == {"phase0", "altair", "bellatrix", "capella", "deneb", "electra", "fulu"}
 Kinds == {"attestation", "proposal", "blinded", "randao", "exit", "registration", "bcselection", "aggregate",
@@ -100,8 +120,14 @@ ClaimedDutyTypes == {0, 1, 2, 3, 4, 5, 6, 7, 8, 9, 10, 11, 12, 13, 14, 99}
 
 (* ------------------------------------------------ the cases ------------------------------------------------ *)
 A(a, i, s) == [alt |-> a, ai |-> i, as |-> s]
+\* "foreignSig": a well-formed object of kind k that carries the signature the same share made over a (valid) object
+\* of kind SrcKind[k] (a permutation of the validator-API kinds; the legacy aggregate takes the versioned one's)
+SrcKind == [attestation |-> "syncmsg", syncmsg |-> "attestation", proposal |-> "blinded", blinded |-> "proposal",
+            randao |-> "registration", exit |-> "randao", registration |-> "exit", bcselection |-> "scselection",
+            scselection |-> "bcselection", aggregate |-> "contribution", contribution |-> "aggregate",
+            aggregate_legacy |-> "aggregate"]
 AltsOf(p, k, own, v) ==
-       {A("none", 0, ""), A("zeroSig", 0, ""), A("badSig", 0, ""), A("wrongFork", 0, "")}
+       {A("none", 0, ""), A("zeroSig", 0, ""), A("badSig", 0, ""), A("wrongFork", 0, ""), A("foreignSig", 0, SrcKind[k])}
   \cup {A("otherShare", j, "") : j \in (1..N) \ {own}}
   \cup {A("otherVal", w, "") : w \in (1..V) \ {v}}
   \cup {A("wrongDomain", 0, d) : d \in OtherDoms(k)}
@@ -123,20 +149,95 @@ AltsOf(p, k, own, v) ==
 KindsOn(p) == IF p = "vc" THEN VCKinds ELSE Kinds
 \* vc: `node` is the node under test, sender unused (0).  peer: `sender` is the peer whose key share signs, the
 \* receiving node is the next one.
+SenderOf(p, node) == IF p = "vc" THEN 0 ELSE (node % N) + 1
+Case(p, k, ver, node, val, a) == [path |-> p, kind |-> k, ver |-> ver, node |-> node, sender |-> SenderOf(p, node),
+                                  val |-> val, alt |-> a.alt, ai |-> a.ai, as |-> a.as]
 CasesOf(p, k) ==
-  UNION {{[path |-> p, kind |-> k, ver |-> t[1], node |-> t[2], sender |-> IF p = "vc" THEN 0 ELSE (t[2] % N) + 1,
-           val |-> t[3], alt |-> a.alt, ai |-> a.ai, as |-> a.as] :
-              a \in AltsOf(p, k, IF p = "vc" THEN t[2] ELSE (t[2] % N) + 1, t[3])} :
+  UNION {{Case(p, k, t[1], t[2], t[3], a) : a \in AltsOf(p, k, IF p = "vc" THEN t[2] ELSE (t[2] % N) + 1, t[3])} :
          t \in VersionsOf(k) \X (1..N) \X (1..V)}
 \* (an operator with a parameter, so that TLC does not evaluate the whole set eagerly at start-up of every run)
 CasesOn(paths) == UNION {CasesOf(pk[1], pk[2]) : pk \in {pk \in paths \X Kinds : pk[2] \in KindsOn(pk[1])}}
 Paths == {"vc", "peer"}
 
+(* --- batches: n = 2..3 elements in ONE request.  A pattern says, per element k: vs[k] the validator (offset from the
+   case's `val`), cs[k] the content (elements with equal cs have the same signing root - where the kind's signing
+   root does not name the validator), ss[k] whose valid signature the element carries (j: the signature that is
+   valid for element j, i.e. made by element j's validator's share over element j's content; ss[k] = k: its own;
+   0: the class bad[k]) --- *)
+Cid == <<"c1", "c2", "c3">>
+\* kinds whose signing root does not name the validator ... / ... and is nothing but the slot (epoch, subcommittee)
+Shareable(k) == k \in {"attestation", "syncmsg", "bcselection", "scselection", "randao"}
+MustShare(k) == k \in {"bcselection", "scselection", "randao"}
+BadClasses == {"otherShare", "otherVal", "zeroSig", "field"}
+BatchKindsOn(p) == IF p = "vc" THEN {k \in VCKinds : ListEndpoint(k)} \cup {"registration"} ELSE Kinds
+DefVer(k) == IF VersionsOf(k) = {"-"} THEN "-" ELSE "deneb"
+FewVersionsOf(k) == IF VersionsOf(k) = {"-"} THEN {"-"} ELSE {"deneb", "electra"}
+Pat(vs, cs, ss, bad) == [vs |-> vs, cs |-> cs, ss |-> ss, bad |-> bad]
+Iota(n) == [k \in 1..n |-> k]
+Const(n, x) == [k \in 1..n |-> x]
+Offs(n) == [k \in 1..n |-> k - 1]
+ContentOpts(k, n) == (IF Shareable(k) THEN {Const(n, 1)} ELSE {}) \cup (IF MustShare(k) THEN {} ELSE {Iota(n)})
+NatContent(k, n) == IF Shareable(k) THEN Const(n, 1) ELSE Iota(n)
+PatternsOf(p, k) ==
+  LET \* distinct validators: every assignment of the elements' valid signatures to the elements
+      maps == UNION {{Pat(Offs(n), cs, ss, Const(n, "")) : cs \in ContentOpts(k, n), ss \in [1..n -> 1..n]} : n \in 2..3}
+      \* one bad element among good ones, at each position
+      oneBad == UNION {{Pat(Offs(n), NatContent(k, n), [j \in 1..n |-> IF j = q THEN 0 ELSE j],
+                            [j \in 1..n |-> IF j = q THEN b ELSE ""]) : q \in 1..n, b \in BadClasses} : n \in 2..3}
+      \* (validator API only: a peer set has one entry per validator) two elements of ONE validator: exact
+      \* duplicate; other content, own / swapped / copied signatures; around an element of another validator
+      c2 == IF Shareable(k) THEN 1 ELSE 3
+      sameVal == {Pat(<<0, 0>>, <<1, 1>>, <<1, 2>>, <<"", "">>)}
+                 \cup {Pat(<<0, 0>>, <<1, 2>>, ss, <<"", "">>) : ss \in [1..2 -> 1..2]}
+                 \cup {Pat(<<0, 1, 0>>, <<1, c2, 1>>, <<1, 2, 3>>, <<"", "", "">>),
+                       Pat(<<0, 1, 0>>, <<1, c2, 2>>, <<1, 2, 3>>, <<"", "", "">>),
+                       Pat(<<0, 1, 0>>, <<1, c2, 2>>, <<3, 2, 1>>, <<"", "", "">>)}
+  IN
+  IF k \in BatchKindsOn(p)
+  THEN {q \in maps \cup oneBad \cup (IF p = "vc" THEN sameVal ELSE {}) : \A j \in DOMAIN q.vs : q.vs[j] < V}
+  ELSE {}
+BatchCasesOf(p, k) ==
+  UNION {{Case(p, k, t[1], t[2], t[3], A("batch", 0, "")) @@ [pat |-> q] : q \in PatternsOf(p, k)} :
+         t \in FewVersionsOf(k) \X (1..N) \X (1..V)}
+BatchCasesOn(paths) == UNION {BatchCasesOf(pk[1], pk[2]) : pk \in {pk \in paths \X Kinds : pk[2] \in BatchKindsOn(pk[1])}}
+
+(* --- sequences: the calls of one schedule all carry the SAME signature bytes - the signature share `own` of validator
+   `val` made over the original object of kind OKind (version OVer) --- *)
+SeqAlt(c) == c.alt \in {"none", "field", "dutyType", "foreignSig"}
+OKind(c) == IF c.alt = "foreignSig" THEN c.as ELSE c.kind
+OVer(c) == IF c.alt = "foreignSig" THEN DefVer(c.as) ELSE c.ver
+SameSig(c1, c) == /\ SeqAlt(c1) /\ SeqAlt(c) /\ c.path = c1.path /\ c.node = c1.node /\ c.sender = c1.sender
+                  /\ c.val = c1.val /\ OKind(c) = OKind(c1) /\ OVer(c) = OVer(c1)
+\* the calls the model checker and the generator follow a first call with (the trace specification accepts every
+\* SameSig call): the object itself, one field changed, filed under one other duty type, another kind's object
+SeqAltsOf(p, k) == {A("none", 0, "")} \cup {A("field", 0, f) : f \in FieldsOf(k)}
+                   \cup (IF p = "peer" /\ DutyOf[SrcKind[k]] # DutyOf[k] THEN {A("dutyType", DutyOf[SrcKind[k]], "")} ELSE {})
+SeqCase(c) == SeqAlt(c) /\ (c.alt = "dutyType" => c.ai = DutyOf[SrcKind[c.kind]])
+FollowSet(c1) ==
+  LET k1 == OKind(c1)  v1 == OVer(c1)  p == c1.path
+  IN  {Case(p, k1, v1, c1.node, c1.val, a) : a \in SeqAltsOf(p, k1)}
+      \cup (IF v1 = DefVer(k1)
+            THEN {Case(p, k2, DefVer(k2), c1.node, c1.val, A("foreignSig", 0, k1)) : k2 \in {k \in KindsOn(p) : SrcKind[k] = k1}}
+            ELSE {})
+SeqsOf(p, k) ==
+  UNION {LET S == FollowSet(Case(p, k, t[1], t[2], t[3], A("none", 0, "")))
+             none == Case(p, k, t[1], t[2], t[3], A("none", 0, ""))
+         IN  {<<x, y>> : x \in S, y \in S}
+             \cup {q \in {<<x, y, z>> : x \in S, y \in S, z \in S} :
+                     \/ q[1] = none /\ q[2] = none          \* valid, replay, anything
+                     \/ q[2] = none /\ q[3] = q[1]          \* altered, valid, the same altered one
+                     \/ q[1] = none /\ q[3] = none          \* valid, altered, valid
+                     \/ q[1] = none /\ q[3] = q[2]} :       \* valid, altered, altered again
+         t \in FewVersionsOf(k) \X (1..N) \X (1..V)}
+SeqsOn(paths) == UNION {SeqsOf(pk[1], pk[2]) : pk \in {pk \in paths \X Kinds : pk[2] \in KindsOn(pk[1])}}
+
 \* As coded: go-eth2-client's VersionedSignedProposal.Slot() answers "unsupported version" for phase0 and altair
 \* blocks, so both handlers refuse them whatever the signature.  The statement is silent about such objects.
 Supported(k, ver) == ~(k = "proposal" /\ ver \in {"phase0", "altair"})
 Own(c) == IF c.path = "vc" THEN c.node ELSE c.sender
-Base(v, own, k) == [val |-> v, idx |-> own, sk |-> "bls", by |-> <<v, own>>, over |-> "orig", cur |-> "orig",
+\* the original content of the schedule's object of kind k
+O(k) == "orig:" \o k
+Base(v, own, k) == [val |-> v, idx |-> own, sk |-> "bls", by |-> <<v, own>>, over |-> O(k), cur |-> O(k),
                     sdom |-> Dom[k], ddom |-> Dom[k], inner |-> TRUE,
                     \* fork versions: "a" is active at the object's slot in the plain cases, "b" is the next one
                     esrc |-> EpochSource[k], slotFork |-> "a", tgtFork |-> "a", sfork |-> "a"]
@@ -153,6 +254,7 @@ Alter(e, c) ==
     [] c.alt = "straddleOK" -> LET x == Straddle(e, c.as) IN [x EXCEPT !.sfork = OwnFork(x)]
     [] c.alt = "straddleBad" -> LET x == Straddle(e, c.as) IN [x EXCEPT !.sfork = OtherFork(OwnFork(x))]
     [] c.alt = "field" -> [e EXCEPT !.cur = c.as]
+    [] c.alt = "foreignSig" -> [e EXCEPT !.over = O(c.as), !.sdom = Dom[c.as]]
     [] c.alt = "zeroSig" -> [e EXCEPT !.sk = "zero"]
     [] c.alt = "badSig" -> [e EXCEPT !.sk = "malformed"]
     [] c.alt = "unknownLock" -> [e EXCEPT !.val = V + 1, !.by = <<V + 1, e.idx>>]
@@ -178,19 +280,44 @@ Msg(c) == [path |-> c.path, kind |-> c.kind, node |-> IF c.path = "vc" THEN c.no
            supported |-> Supported(c.kind, c.ver)]
 NoMsg == [path |-> "-", kind |-> "-", node |-> 0, sender |-> 0, alt |-> "-", entries |-> <<>>, dt |-> 0,
           window |-> "in", payload |-> TRUE, supported |-> TRUE]
+\* the elements of a batch
+BVal(b, k) == ((b.val - 1 + b.pat.vs[k]) % V) + 1
+BEntry(b, k) ==
+  LET q == b.pat  own == Own(b)  v == BVal(b, k)
+      e == [Base(v, own, b.kind) EXCEPT !.cur = Cid[q.cs[k]], !.over = Cid[q.cs[k]]]
+  IN  IF q.ss[k] # 0 THEN [e EXCEPT !.over = Cid[q.cs[q.ss[k]]], !.by = <<BVal(b, q.ss[k]), own>>]
+      ELSE CASE q.bad[k] = "otherShare" -> [e EXCEPT !.by = <<v, (own % N) + 1>>]
+             [] q.bad[k] = "otherVal" -> [e EXCEPT !.by = <<(v % V) + 1, own>>]
+             [] q.bad[k] = "zeroSig" -> [e EXCEPT !.sk = "zero"]
+             [] q.bad[k] = "field" -> [e EXCEPT !.cur = "changed"]
+MsgB(b) == [path |-> b.path, kind |-> b.kind, node |-> IF b.path = "vc" THEN b.node ELSE (b.sender % N) + 1,
+            sender |-> b.sender, alt |-> "batch", entries |-> [k \in DOMAIN b.pat.vs |-> BEntry(b, k)],
+            dt |-> DutyOf[b.kind], window |-> "in", payload |-> TRUE, supported |-> Supported(b.kind, b.ver)]
 
 (* ------------------------------------------ the property, as stated ---------------------------------------- *)
 Valid(e) == /\ e.sk = "bls" /\ e.val \in 1..V /\ e.idx \in 1..N
             /\ e.by = <<e.val, e.idx>> /\ e.over = e.cur /\ e.sdom = e.ddom /\ e.sfork = OwnFork(e)
 DutyTypeValid(dt) == dt \in 1..13
+\* per element, and without any reference to what was submitted or verified before
 MayEnter(m, k) ==
   /\ Valid(m.entries[k])
   /\ m.path = "vc" => m.entries[k].idx = m.node
   /\ m.path = "peer" => /\ DutyTypeValid(m.dt) /\ m.window \notin {"beyond", "huge"}
                         /\ \A j \in DOMAIN m.entries : Valid(m.entries[j])     \* nothing of a message with a bad entry
   /\ (m.path = "vc" /\ m.kind \in {"proposal", "blinded"}) => m.payload
-\* sanity of the whole arrangement: an unaltered submission does enter (except where the endpoint ignores its input)
-MustEnter(m) == m.alt \in {"none", "futureEdge", "straddleOK"} /\ ~(m.path = "vc" /\ m.kind = "registration") /\ m.supported
+\* sanity of the whole arrangement: an unaltered submission does enter (except where the endpoint ignores its input);
+\* a batch of valid elements of different validators enters entirely
+DistinctVals(m) == \A j, k \in DOMAIN m.entries : j # k => m.entries[j].val # m.entries[k].val
+MustEnter(m) == /\ \/ m.alt \in {"none", "futureEdge", "straddleOK"}
+                   \/ m.alt = "batch" /\ DistinctVals(m) /\ \A k \in DOMAIN m.entries : Valid(m.entries[k])
+                /\ ~(m.path = "vc" /\ m.kind = "registration") /\ m.supported
+
+(* ------------------------------------------------ the machine ---------------------------------------------- *)
+VARIABLES msg, phase, delivered,
+          calls,       \* the cases submitted so far in this schedule
+          seen,        \* MemoVerifier only: the (public share, signature) pairs the peer verifier has accepted
+          admitted     \* ReplayPolicy = "either" only: the entries admitted by earlier calls
+vars == <<msg, phase, delivered, calls, seen, admitted>>
 
 (* ------------------------------------------ the handlers, as coded ----------------------------------------- *)
 Lock == [v \in 1..V |-> [i \in 1..N |-> <<v, i>>]]
@@ -201,55 +328,91 @@ CodeFork(m, e) == IF SwapEpochFor = m.kind THEN (IF e.esrc = "target" THEN e.slo
 VerifyEth2(key, e, m) == /\ e.ddom # "none"                   \* "invalid eth2 signed data"
                          /\ e.sk # "zero"                     \* "no signature found"
                          /\ e.sk = "bls" /\ e.by = key /\ e.over = e.cur /\ e.sdom = e.ddom /\ e.sfork = CodeFork(m, e)
+\* the signature bytes (BLS signing is deterministic): who signed what under which domain
+SigId(e) == <<e.sk, e.by, e.over, e.sdom, e.sfork>>
 \* parsigex.handle: gater, ParSignedDataSetFromProto, verifyFunc for every entry, then the subscribers
 \* core/gater.go: duty.Slot / slotsPerEpoch <= currentEpoch + allowedFutureEpochs in uint64
 PeerGate(m) == SkipGater \/ (DutyTypeValid(m.dt) /\ (m.window \in {"in", "edge"} \/ (SignedGater /\ m.window = "huge")))
 PeerDecodes(m) == /\ m.dt \in (1..12) \ {5}                   \* DutyBuilderProposer deprecated, InfoSync/others unsupported
                   /\ \A k \in DOMAIN m.entries : m.entries[k].sk # "malformed"
+PeerKeyIdx(m, e) == IF UseSenderIdx THEN m.sender ELSE e.idx
 PeerVerify(m, e) == /\ e.val \in DOMAIN Lock                  \* "unknown pubkey, not part of cluster lock"
-                    /\ LET i == IF UseSenderIdx THEN m.sender ELSE e.idx
+                    /\ LET i == PeerKeyIdx(m, e)
                        IN  i \in DOMAIN Lock[e.val]           \* "invalid shareIdx"
-                           /\ VerifyEth2(Lock[e.val][i], e, m)
+                           /\ \/ VerifyEth2(Lock[e.val][i], e, m)
+                              \/ MemoVerifier /\ e.ddom # "none" /\ <<Lock[e.val][i], SigId(e)>> \in seen
 PeerAdmits(m) == PeerGate(m) /\ PeerDecodes(m) /\ \A k \in DOMAIN m.entries : PeerVerify(m, m.entries[k])
+\* what a remembering verifier would have added to its memo during the current call
+VerifiedNow == IF msg.path = "peer" /\ PeerGate(msg) /\ PeerDecodes(msg)
+               THEN {<<Lock[msg.entries[k].val][PeerKeyIdx(msg, msg.entries[k])], SigId(msg.entries[k])>> :
+                       k \in {j \in DOMAIN msg.entries : PeerVerify(msg, msg.entries[j])}}
+               ELSE {}
 \* validatorapi: resolve the validator, (aggregates/contributions) inner selection proof, (proposals)
-\* propDataMatchesDuty, verifyPartialSig with the node's own share of that validator
-VCEntryOK(m, e) ==
+\* propDataMatchesDuty, verifyPartialSig with the node's own share of that validator - for EVERY element on its own
+VCPre(m, e) ==
   /\ HasClaim("vc", m.kind) => e.val \in 1..(V + 1)           \* "validator not found" / pubKeyByAttFunc error
   /\ m.kind \in {"aggregate", "contribution"} => e.inner
   /\ m.kind \in {"proposal", "blinded"} => (SkipPropMatch \/ m.payload)
-  /\ \/ DropVerify = m.kind
-     \/ /\ e.val \in DOMAIN Lock                              \* getVerifyShareFunc: "unknown public key"
-        /\ VerifyEth2(Lock[e.val][m.node], e, m)
+\* control variant: the elements of a request with the same signing root are checked with one aggregate verification;
+\* it passes iff every signature is over that root and the signing shares are, as a bag, the claimed shares
+AggVerify(m, k) ==
+  LET G == {j \in DOMAIN m.entries : m.entries[j].cur = m.entries[k].cur}
+      claimed(j) == Lock[m.entries[j].val][m.node]
+  IN  /\ \A j \in G : LET e == m.entries[j]
+                      IN  /\ e.val \in DOMAIN Lock /\ e.ddom # "none" /\ e.sk = "bls"
+                          /\ e.over = e.cur /\ e.sdom = e.ddom /\ e.sfork = CodeFork(m, e)
+      /\ \A j \in G : /\ Cardinality({i \in G : m.entries[i].by = claimed(j)}) = Cardinality({i \in G : claimed(i) = claimed(j)})
+                      /\ \E i \in G : claimed(i) = m.entries[j].by
+VCVerify(m, k) ==
+  LET e == m.entries[k]
+  IN  \/ DropVerify = m.kind
+      \/ IF AggBatchFor = m.kind THEN AggVerify(m, k)
+         ELSE /\ e.val \in DOMAIN Lock                        \* getVerifyShareFunc: "unknown public key"
+              /\ VerifyEth2(Lock[e.val][m.node], e, m)
+VCEntryOK(m, k) == VCPre(m, m.entries[k]) /\ VCVerify(m, k)
 Checks(m) == IF m.path = "peer" THEN PeerAdmits(m)
-             ELSE m.kind # "registration" /\ \A k \in DOMAIN m.entries : VCEntryOK(m, m.entries[k])
+             ELSE m.kind # "registration" /\ \A k \in DOMAIN m.entries : VCEntryOK(m, k)
 AsCoded(m) == m.supported /\ Checks(m)
 \* latitude where the statement is silent
-Loose(m, e) == VCEntryOK(m, IF InnerProofPolicy = "either" THEN [e EXCEPT !.inner = TRUE] ELSE e)
+Loose(m, k) == /\ VCPre(m, IF InnerProofPolicy = "either" THEN [m.entries[k] EXCEPT !.inner = TRUE] ELSE m.entries[k])
+               /\ VCVerify(m, k)
+\* the validator API collects a request's elements in sets keyed by validator: of two elements of one validator (and
+\* slot) only one is handed on
+Superseded(m, k) == m.path = "vc" /\ \E j \in DOMAIN m.entries : j # k /\ m.entries[j].val = m.entries[k].val
+Replayed(m, k) == ReplayPolicy = "either" /\ m.entries[k] \in admitted
 Choices(m, k) ==
-  IF AsCoded(m) THEN {TRUE}
+  IF AsCoded(m) THEN (IF Superseded(m, k) \/ Replayed(m, k) THEN BOOLEAN ELSE {TRUE})
   ELSE IF ~m.supported THEN (IF Checks(m) THEN BOOLEAN ELSE {FALSE})
-  ELSE IF /\ m.path = "vc" /\ m.kind # "registration" /\ Loose(m, m.entries[k])
-          /\ (VCBatchPolicy = "either" \/ \A j \in DOMAIN m.entries : Loose(m, m.entries[j]))
+  ELSE IF /\ m.path = "vc" /\ m.kind # "registration" /\ Loose(m, k)
+          /\ (VCBatchPolicy = "either" \/ \A j \in DOMAIN m.entries : Loose(m, j))
        THEN BOOLEAN
        ELSE {FALSE}
 
-(* ------------------------------------------------ the machine ---------------------------------------------- *)
-VARIABLES msg, phase, delivered
-vars == <<msg, phase, delivered>>
-Init == msg = NoMsg /\ phase = "idle" /\ delivered = {}
-Submit(c) == /\ phase = "idle" /\ msg' = Msg(c) /\ phase' = "recv" /\ delivered' = {}
+Init == msg = NoMsg /\ phase = "idle" /\ delivered = {} /\ calls = <<>> /\ seen = {} /\ admitted = {}
+\* a call: the handlers keep nothing from one call to the next (`seen` and `admitted` are empty as coded)
+Start(c, m) == /\ phase \in {"idle", "done"} /\ msg' = m /\ phase' = "recv" /\ delivered' = {}
+               /\ calls' = Append(calls, c)
+               /\ seen' = IF MemoVerifier THEN seen \cup VerifiedNow ELSE seen
+               /\ admitted' = IF ReplayPolicy = "either" THEN admitted \cup {msg.entries[k] : k \in delivered} ELSE admitted
+Submit(c) == Start(c, Msg(c))
+SubmitBatch(b) == calls = <<>> /\ Start(b, MsgB(b))
 Deliver(k) == /\ phase = "recv" /\ k \in DOMAIN msg.entries /\ k \notin delivered
               /\ TRUE \in Choices(msg, k)
-              /\ delivered' = delivered \cup {k} /\ UNCHANGED <<msg, phase>>
+              /\ delivered' = delivered \cup {k} /\ UNCHANGED <<msg, phase, calls, seen, admitted>>
 Return == /\ phase = "recv"
           /\ \A k \in DOMAIN msg.entries : (k \in delivered) \in Choices(msg, k)
-          /\ phase' = "done" /\ UNCHANGED <<msg, delivered>>
-Next == (phase = "idle" /\ \E c \in CasesOn(Paths) : Submit(c)) \/ (\E k \in 1..2 : Deliver(k)) \/ Return
+          /\ phase' = "done" /\ UNCHANGED <<msg, delivered, calls, seen, admitted>>
+\* one single-element call, one batch, or up to 3 calls that carry the same signature
+Next == \/ phase = "idle" /\ \E c \in CasesOn(Paths) : Submit(c)
+        \/ phase = "idle" /\ \E b \in BatchCasesOn(Paths) : SubmitBatch(b)
+        \/ phase = "done" /\ Len(calls) \in 1..2 /\ SeqCase(calls[1])
+                          /\ \E c \in FollowSet(calls[1]) : Submit(c)
+        \/ (\E k \in 1..3 : Deliver(k)) \/ Return
 Spec == Init /\ [][Next]_vars
 
 TypeOK == phase \in {"idle", "recv", "done"} /\ delivered \subseteq DOMAIN msg.entries
 OnlyValidEnter == \A k \in delivered : MayEnter(msg, k)
-ValidEnters == (phase = "done" /\ MustEnter(msg)) => delivered = DOMAIN msg.entries
+ValidEnters == (phase = "done" /\ MustEnter(msg)) => \A k \in DOMAIN msg.entries : k \in delivered \/ Replayed(msg, k)
 PeerAllOrNothing == (phase = "done" /\ msg.path = "peer") => delivered \in {{}, DOMAIN msg.entries}
 Safety == TypeOK /\ OnlyValidEnter /\ ValidEnters /\ PeerAllOrNothing
 ====
